@@ -125,16 +125,16 @@ func (c *Calcium) doCreateWorkloads(ctx context.Context, opts *types.DeployOptio
 
 					// commit changes
 					processingCommits = make(map[string]wal.Commit)
+					allocated := []string{}
 					defer func() {
 						if err == nil {
 							return
 						}
 						// the rollback of this txn does nothing for a failure of its first phase:
 						// give back here, still under the pod lock, what was allocated before the failure
-						for nodename, resources := range workloadResourcesMap {
-							if len(resources) == 0 {
-								continue
-							}
+						// (only on the nodes whose allocation succeeded: a failed Alloc still returns its plans)
+						for _, nodename := range allocated {
+							resources := workloadResourcesMap[nodename]
 							if e := c.rmgr.RollbackAlloc(utils.NewInheritCtx(ctx), nodename, resources); e != nil {
 								logger.Errorf(ctx, e, "failed to rollback allocation on %s", nodename)
 							}
@@ -145,6 +145,7 @@ func (c *Calcium) doCreateWorkloads(ctx context.Context, opts *types.DeployOptio
 						if workloadResourcesMap[nodename], engineParamsMap[nodename], err = c.rmgr.Alloc(ctx, nodename, deploy, opts.Resources); err != nil {
 							return err
 						}
+						allocated = append(allocated, nodename)
 						processing := opts.GetProcessing(nodename)
 						if processingCommits[nodename], err = c.wal.Log(eventProcessingCreated, processing); err != nil {
 							return err
